@@ -956,3 +956,25 @@ example : parseNumber "-12.50e-1".toList = some ⟨-1250, -3⟩ := by decide
 example : AllDigits ['1','2'] ∧ AllDigits ['5','0'] := by
   constructor <;> (intro c hc; simp at hc; rcases hc with rfl | rfl <;> decide)
 end HedVerif.Units
+
+namespace HedVerif.C11
+open HedVerif.Units
+/-- in ℚ: `ip.fp` denotes `(val ip · 10^|fp| + val fp) / 10^|fp|`, i.e. `val ip + val fp / 10^|fp|` -/
+theorem parse_decimal_rat (d : Char) (ds fp : Str) (hd : AllDigits (d :: ds)) (hf : AllDigits fp) :
+    (parseNumber (d :: ds ++ '.' :: fp)).map Dec.toRat =
+      some ((digitsVal (d :: ds) : Rat) + (digitsVal fp : Rat) / (10 : Rat) ^ fp.length) := by
+  rw [parse_decimal d ds fp hd hf]
+  simp only [Option.map_some, Option.some.injEq, Dec.toRat]
+  rw [show (d :: ds ++ fp) = (d :: ds) ++ fp from rfl, digitsVal_append]
+  have h10 : ((10 : Rat) ^ fp.length) ≠ 0 := Rat.ne_of_gt (Rat.pow_pos (by decide))
+  rw [Rat.zpow_neg, Rat.zpow_natCast]
+  simp only [Int.natCast_add, Int.natCast_mul, Int.natCast_pow, Rat.intCast_add, Rat.intCast_mul, Rat.intCast_pow, Rat.intCast_natCast]
+  have hc : ((10 : Nat) : Rat) = 10 := by simp
+  rw [hc, Rat.div_def, Rat.add_mul, Rat.mul_assoc, Rat.mul_inv_cancel _ h10]
+  simp
+end HedVerif.C11
+
+namespace HedVerif.C11
+open HedVerif.Units
+example : (parseNumber "12.50".toList).map Dec.toRat = some (25 / 2) := by decide +kernel
+end HedVerif.C11
